@@ -414,7 +414,7 @@ def r0_substitution(ctx):
 
 
 MANIFEST_ENTRY = {
-    "technique": "static analysis: traversal-completeness over the ParsedValue enum (syn, canonical form), abstract evaluation of the populate / resolve drivers and of the argument naming helpers, MIR parameter-provenance of locale arguments across lookup / nested resolution / populate (closure-aware), dominance ordering of the passes, who-may-construct unresolved references; the parse-time range matcher used for literal count arguments agrees with the generated run-time patterns (shared with C04)",
-    "level_text": "Structural: substitution is shown to reach every child kind, every step of a resolution is shown to use one locale (by provenance of the locale operands), references are shown recorded at creation and all visited, and the pass order is decided by dominance. No reference is evaluated.",
-    "level_note": "Trusted: RefCell borrow semantics for cycle detection. Known finding D11 (null target ignores `inherits`). Not decided: concrete rendered text.",
+    "technique": "static analysis: abstract evaluation (rules/fkeval.py on rules/absint.py) of ParsedValue::populate with its real callees over every kind of value x argument set (oracle: the pure substitution of the statement), of the argument-object parser, of the resolution step resolve_foreign_key_inner over target kinds x inherits tables (chains, cycles, self reference, absent links; oracle: first locale of the chain that defines the target), and of the traversal resolve_foreign_key (every reference cell once, busy cell = cycle); abstract evaluation of the driver and of the naming helpers; MIR dominance ordering of the passes, who-may-construct unresolved references; the parse-time range matcher agrees with the generated patterns (shared with C04.R1)",
+    "level_text": "Finite abstract evaluation + structural: substitution, argument parsing, the resolution step and the traversal are interpreted on one value per constructor shape (and per position of a variable inside it) and compared with the statement; references are shown recorded at creation and all visited, and the pass order is decided by dominance. No project is loaded.",
+    "level_note": "Trusted: RefCell borrow semantics for cycle detection (modelled). D11 repaired upstream (44c852c). Not decided: concrete rendered text.",
 }
